@@ -27,7 +27,9 @@ RULE = ('cases = (history, cache variant): random histories (8-14 operations) of
         '1 byte, half, all but the last byte, the bytes of another entry/another snapshot, same-length garbage, or a random mix; in every second history an '
         'object whose contents do not hash to its name is planted under a well-formed snapshot location (and possibly removed again): all '
         'clients must fail alike; plus the crowded-directory scenario: snapshots are created until two share a cache sub-directory, then every '
-        'command is run cache-less and with a cold cache and 4 loader threads whose cache writes into one directory are made to overlap; stale entries '
+        'command is run cache-less and with a cold cache and 4 loader threads whose cache writes into one directory are made to overlap, '
+        'and two clients on one cache directory (encrypted repository: independent keys) in both forced orders of "about to write an entry into a '
+        'sub-directory" / "deleting the only other entry of that sub-directory"; stale entries '
         'arise from the other clients\' snapshot/delete operations; non-trivial = the variant run actually read or repaired at least one cache '
         'entry that differs from the backend object (or, for plain variants, served at least one entry from the cache); distinct = distinct '
         '(history, variant)')
@@ -423,6 +425,99 @@ class Rendezvous:
         Path.write_bytes = self._orig
 
 
+class Gate:
+    """Schedule control for two clients that share one cache directory: the first cache operation of the chosen kind
+    in the chosen sub-directory stops ('before_write': a client has created the sub-directory and is about to write an
+    entry; 'after_unlink': a client has just removed an entry) until the harness lets it continue."""
+
+    def __init__(self, cache_root, subdir, point):
+        import threading
+        self.dir = str(Path(cache_root, subdir))
+        self.point = point
+        self.paused, self.resume = threading.Event(), threading.Event()
+        self.lock = threading.Lock()
+        self.fired = False
+
+    def _stop(self):
+        with self.lock:
+            if self.fired:
+                return
+            self.fired = True
+        self.paused.set()
+        self.resume.wait(20)
+
+    def __enter__(self):
+        ow, ou, me = Path.write_bytes, Path.unlink, self
+
+        def write_bytes(self, data):
+            if me.point == 'before_write' and str(self.parent) == me.dir:
+                me._stop()
+            return ow(self, data)
+
+        def unlink(self, missing_ok=False):
+            r = ou(self, missing_ok=missing_ok)
+            if me.point == 'after_unlink' and str(self.parent) == me.dir:
+                me._stop()
+            return r
+        self._orig = (ow, ou)
+        Path.write_bytes, Path.unlink = write_bytes, unlink
+        return self
+
+    def __exit__(self, *exc):
+        Path.write_bytes, Path.unlink = self._orig
+
+
+def duo_interleavings(wd, be_objects, deleter_kw, lister_kw, subdir, victim_loc, fresh_loc, canon):
+    """Two clients on ONE cache directory.  The deleter has `victim_loc` (its own snapshot) cached in `subdir`; the lister is
+    about to cache `fresh_loc`, which belongs to the same sub-directory.  Both forced orders are run; the lister's listing must
+    equal the listing of a cache-less client taken on the same backend state, and so must a later listing."""
+    import threading
+    victim_name = victim_loc.rpartition('-')[2]
+    results = []
+
+    def listing(b, kw, cache, concurrent=1):
+        o = repolab.Client(b, cache=cache, concurrent=concurrent, **kw).list_snapshots()
+        return {'op': 'list_snapshots', 'cls': o.cls, 'detail': o.detail[:200], 'rows': canon(o.stdout)}
+
+    for k, point in enumerate(('before_write', 'after_unlink')):
+        b = MemBackend(dict(be_objects))
+        cache = wd / f'duo-cache-{k}'
+        shutil.rmtree(cache, ignore_errors=True)
+        # the deleter's entries are cached; the fresh snapshot is not (it was added by the other client meanwhile)
+        warm = listing(b, deleter_kw, cache, concurrent=4)
+        checks, box = [('the first listing with the shared cache', listing(b, deleter_kw, None), warm)], {}
+        if warm['cls'] != 'Ok':
+            results.append({'order': point, 'paused': False, 'checks': checks})
+            continue
+        Path(cache, fresh_loc).unlink(missing_ok=True)
+        gate = Gate(cache, subdir, point)
+        with gate:
+            if point == 'before_write':
+                ref = listing(b, lister_kw, None)                   # cache-less client, same moment
+                t = threading.Thread(target=lambda: box.update(got=listing(b, lister_kw, cache)))
+                t.start()
+                paused = gate.paused.wait(8)
+                d = repolab.Client(b, cache=cache, concurrent=1, **deleter_kw).delete_snapshots([victim_name])
+                gate.resume.set()
+                t.join(30)
+                checks.append(('the listing that was storing an entry while the other client deleted its snapshot', ref, box.get('got', {'cls': 'hung'})))
+                checks.append(('the delete', {'cls': 'Ok'}, {'cls': d.cls, 'detail': d.detail[:200]}))
+            else:
+                t = threading.Thread(target=lambda: box.update(d=repolab.Client(b, cache=cache, concurrent=1, **deleter_kw).delete_snapshots([victim_name])))
+                t.start()
+                paused = gate.paused.wait(8)
+                ref = listing(b, lister_kw, None)
+                got = listing(b, lister_kw, cache)
+                gate.resume.set()
+                t.join(30)
+                d = box.get('d')
+                checks.append(('the listing run while the other client was between removing a cache entry and finishing its delete', ref, got))
+                checks.append(('the delete', {'cls': 'Ok'}, {'cls': d.cls if d else 'hung', 'detail': d.detail[:200] if d else ''}))
+        checks.append(('a later listing', listing(b, lister_kw, None), listing(b, lister_kw, cache)))
+        results.append({'order': point, 'paused': bool(paused), 'checks': checks})
+    return results
+
+
 def crowd_main(inp):
     """Many snapshots, so that some of them share a cache sub-directory (snapshots/<first tag byte>/); every command is
     run by the cache-less client and by a client whose cache is cold, with 4 loader threads under the Rendezvous."""
@@ -496,6 +591,37 @@ def crowd_main(inp):
             obs['backend'] = sorted(('snapshot:%s' % labels.get(x.rpartition('-')[2], '?')) if x.startswith('snapshots/') else x for x in b.objects)
             steps.append(obs)
         out[variant] = steps
+    # ---- two clients on one cache directory, forced orders
+    b = MemBackend(dict(base))
+    owner_kw = {'password': pw, 'key': maker.key}
+    subdir = victim = fresh = None
+    if encrypted:
+        # the other client holds an INDEPENDENT key (the README declares destructive commands safe next to those)
+        cheap = {'encryption': {'kdf': {'name': 'scrypt', 'n': 4}}}
+        k2 = repolab.Client(b, **owner_kw).add_key(b'crowd-indep', shared=False, settings=cheap)
+        assert k2.ok, k2.detail
+        lister_kw = {'password': b'crowd-indep', 'key': repolab.serialize_key(k2.value.new_key)}
+        single = {d: v[0] for d, v in dirs.items() if len(v) == 1}
+        other = repolab.Client(b, **lister_kw)
+        for j in range(inp['cap']):
+            FakeDT.current = t0 + _dt.timedelta(seconds=5000 + j)
+            o = other.snapshot([tree], note=f'indep-{j}')
+            assert o.ok, o.detail
+            labels[o.value.name] = n + j
+            d = posixpath.dirname(o.value.location)
+            if d in single:
+                subdir, victim, fresh = d, single[d], o.value.location
+                break
+    else:
+        lister_kw = owner_kw
+        if crowded:
+            subdir = crowded[0]
+            victim, fresh = sorted(dirs[subdir])[:2]
+    if subdir is not None:
+        try:
+            out['duo'] = {'subdir': subdir, 'runs': duo_interleavings(wd, dict(b.objects), owner_kw, lister_kw, subdir, victim, fresh, canon)}
+        except Exception as e:  # noqa: BLE001 - reported by the parent, the crowded-directory results are kept
+            out['duo_error'] = f'{type(e).__name__}: {e}'[:300]
     sys.stdout.write(json.dumps(out))
     sys.stdout.flush()
     os._exit(0)
@@ -522,6 +648,19 @@ def run_crowds(ctx, rep, specs):
         rep.case(('crowd', kind, seed), nontrivial=bool(r['crowded']))
         rep.count('variant:cold-crowded')
         rep.count('crowd:snapshots', r['n'])
+        if r.get('duo_error'):
+            rep.disagreements.append({'what': 'the two-clients scenario could not be run on the implementation: ' + r['duo_error'], 'replay': replay})
+        for run_ in (r.get('duo') or {}).get('runs', []):
+            rep.case(('duo', kind, seed, run_['order']), nontrivial=run_['paused'])
+            rep.count('variant:shared-concurrent/' + run_['order'])
+            for what, ref, got in run_['checks']:
+                key = diff_obs(ref, got)
+                if key:
+                    rep.violations.append({
+                        'what': f'{kind} repository, two clients on one cache directory, sub-directory {r["duo"]["subdir"]}, order "{run_["order"]}": {what} differs '
+                                f'from the cache-less client in {key}: {json.dumps(got.get(key))[:120]} ({got.get("detail", "")[:140]}) vs {json.dumps(ref.get(key))[:120]}',
+                        'signature': {'variant': 'shared-concurrent', 'op': run_['order'], 'differs': key}, 'replay': replay})
+                    break
         for i, (a, b) in enumerate(zip(r['none'], r['cold'])):
             key = diff_obs(a, b)
             if key:
@@ -637,6 +776,8 @@ def compare_with_model(rep, hid, history, run, variant, vals):
         slot = 0 if variant == 'shared' else op['client']
         if obs['cls'] != 'Ok':
             unsettled.add(slot)
+        if variant == 'warm' and op['op'] == 'plant':
+            unsettled |= {0, 1, 2}          # the warm-keeping listings (not steps) fail from here on, for every client
         if what is None and obs['cls'] == 'Ok' and variant != 'none' and slot not in unsettled:
             impl_states = [st['extra']['cache_after'].get(str(l), 0) for l in created]
             # labels not yet created are absent in both; entries of snapshots that no longer exist are inert
